@@ -30,8 +30,16 @@ pub struct Config {
 impl Config {
     /// Write the given metadata.
     pub fn write_meta(&self) -> Result<()> {
+        #[cfg(feature = "verif")]
+        crate::verif::point("meta.before_create", "", 0, 0)?;
         let f = fs::File::create(&self.meta_path)?;
+        #[cfg(feature = "verif")]
+        crate::verif::point("meta.created", "", 0, 0)?;
+        #[cfg(feature = "verif")]
+        let f = crate::verif::MetaWriter::new(f);
         serde_json::to_writer(f, &self.meta)?;
+        #[cfg(feature = "verif")]
+        crate::verif::point("meta.written", "", 0, 0)?;
         Ok(())
     }
 
